@@ -134,3 +134,74 @@ pub fn check_usk(w: &mut World, k: usize, u: &WUsk, m: &WMsk, what: &str) {
         }
     }
 }
+
+/// Many users on one master key: registration, distinctness and the tracing relation for every
+/// issued id, through a master-key round-trip and a refresh of every key.
+pub fn bulk(run: &mut crate::common::Run, n: usize) {
+    use cosmian_cover_crypt::{AccessPolicy, MasterSecretKey, UserSecretKey};
+    use cosmian_crypto_core::bytes_ser_de::Serializable;
+    use serde_json::json;
+    let mut b = crate::ftamper::w1();
+    let pols = ["A::x", "A::y && H::lo", "H::hi", "*"];
+    let mut keys: Vec<UserSecretKey> = vec![];
+    for i in 0..n {
+        let ap = AccessPolicy::parse(pols[i % pols.len()]).unwrap();
+        match b.cc.generate_user_secret_key(&mut b.msk, &ap) {
+            Ok(k) => keys.push(k),
+            Err(e) => {
+                run.report(None, "C17.a", &format!("key generation #{i} failed: {e}"), json!({"engine": "tracing-bulk"}));
+                return;
+            }
+        }
+    }
+    let check = |run: &mut crate::common::Run, msk: &MasterSecretKey, keys: &[UserSecretKey], what: &str| -> bool {
+        let Ok(m) = WMsk::decode(&crate::world::ser(msk)) else {
+            run.report(None, "C13.w", &format!("{what}: master key with {n} users does not decode"), json!({"engine": "tracing-bulk"}));
+            return false;
+        };
+        if m.users.len() != keys.len() {
+            run.report(None, "C17.a", &format!("{what}: {} keys were issued, the master key lists {} ids", keys.len(), m.users.len()), json!({"engine": "tracing-bulk"}));
+            return false;
+        }
+        if m.users.windows(2).any(|p| p[0] == p[1]) {
+            run.report(None, "C17.b", &format!("{what}: two of {n} issued ids are equal"), json!({"engine": "tracing-bulk"}));
+            return false;
+        }
+        let want: Vec<&Vec<u8>> = m.tracers.iter().map(|(_, p)| p).collect();
+        for (i, k) in keys.iter().enumerate() {
+            let Ok(u) = WUsk::decode(&crate::world::ser(k)) else { continue };
+            if !m.users.contains(&u.id) {
+                run.report(None, "C17.a", &format!("{what}: the id of issued key #{i} of {n} is not registered"), json!({"engine": "tracing-bulk"}));
+                return false;
+            }
+            if relation_holds(&m, &u.id) != Some(true) {
+                run.report(None, "C17.c", &format!("{what}: the id of issued key #{i} of {n} does not satisfy the tracing relation"), json!({"engine": "tracing-bulk"}));
+                return false;
+            }
+            if u.ps.iter().collect::<Vec<_>>() != want {
+                run.report(None, "C17.d", &format!("{what}: tracing points of issued key #{i} differ from the master tracers"), json!({"engine": "tracing-bulk"}));
+                return false;
+            }
+        }
+        true
+    };
+    if !check(run, &b.msk, &keys, "after issuing") {
+        return;
+    }
+    let Ok(mut msk2) = MasterSecretKey::deserialize(&crate::world::ser(&b.msk)) else {
+        run.report(None, "C13.d", "master key with many users rejected by deserialize", json!({"engine": "tracing-bulk"}));
+        return;
+    };
+    if !check(run, &msk2, &keys, "after a master-key round-trip") {
+        return;
+    }
+    let _ = b.cc.rekey(&mut msk2, &AccessPolicy::parse("A::x").unwrap());
+    for (i, k) in keys.iter_mut().enumerate() {
+        if let Err(e) = b.cc.refresh_usk(&mut msk2, k, i % 2 == 0) {
+            run.report(None, "C17.e", &format!("issued key #{i} of {n} is refused by refresh after a master-key round-trip: {e}"), json!({"engine": "tracing-bulk"}));
+            return;
+        }
+    }
+    check(run, &msk2, &keys, "after refreshing every key");
+    run.set("bulk_users", json!(n));
+}
